@@ -312,9 +312,14 @@ class Envelope:
         if self.measured:
             raise ValueError("Envelope has already been destroyed")
 
-        # Check if given states are part of this envelope
+        # Check if given states are part of this envelope (compared by identity,
+        # fock states with the same state are equal)
         for s in states:
-            assert s in [self.fock, self.polarization]
+            if s is not self.fock and s is not self.polarization:
+                raise ValueError(
+                    "Given states have to be members of the envelope, "
+                    "use env.fock and env.polarization"
+                )
 
         outcomes = {}
         reshape_shape = []
@@ -828,7 +833,7 @@ class Envelope:
             raise ValueError("Too many states given")
 
         for s in states_list:
-            if s not in [self.polarization, self.fock]:
+            if s is not self.polarization and s is not self.fock:
                 raise ValueError(
                     "Given states have to be members of the envelope, "
                     "use env.fock and env.polarization"
@@ -942,6 +947,13 @@ class Envelope:
         from photon_weave.state.composite_envelope import CompositeEnvelope
         from photon_weave.state.fock import Fock
         from photon_weave.state.polarization import Polarization, PolarizationLabel
+
+        for s in states:
+            if s is not self.polarization and s is not self.fock:
+                raise ValueError(
+                    "Given states have to be members of the envelope, "
+                    "use env.fock and env.polarization"
+                )
 
         if self.composite_envelope is not None and any(
             isinstance(s.index, tuple) for s in states
@@ -1162,6 +1174,13 @@ class Envelope:
         )
         from photon_weave.state.fock import Fock
         from photon_weave.state.polarization import Polarization
+
+        for s in states:
+            if s is not self.polarization and s is not self.fock:
+                raise ValueError(
+                    "Given states have to be members of the envelope, "
+                    "use env.fock and env.polarization"
+                )
 
         # Check that correct operation is applied to the correct system
         if isinstance(operation._operation_type, FockOperationType):
